@@ -39,15 +39,15 @@ var flows = []*Flow{
 	{Name: "describe", Mode: "describe", Proto: "auto", Quick: true},
 	{Name: "play-tcp", Mode: "play", Proto: "tcp", Quick: true},
 	{Name: "play-udp", Mode: "play", Proto: "udp", Quick: true},
-	{Name: "play-auto", Mode: "play", Proto: "auto", Quick: true},
+	{Name: "play-auto", Mode: "play", Proto: "auto", Quick: false},
 	{Name: "play-auto-461", Mode: "play", Proto: "auto", NoUDP: true, Quick: true},
 	{Name: "play-auto-switch", Mode: "play", Proto: "auto", Blackhole: true, Pause: true, Quick: true, Base: "play-auto"},
 	{Name: "pause-tcp", Mode: "play", Proto: "tcp", Pause: true, Quick: true, Base: "play-tcp"},
-	{Name: "pause-udp", Mode: "play", Proto: "udp", Pause: true, Quick: true, Base: "play-udp"},
+	{Name: "pause-udp", Mode: "play", Proto: "udp", Pause: true, Quick: false, Base: "play-udp"},
 	{Name: "record-tcp", Mode: "record", Proto: "tcp", Pause: true, Quick: true},
-	{Name: "record-udp", Mode: "record", Proto: "udp", Quick: true},
+	{Name: "record-udp", Mode: "record", Proto: "udp", Quick: false},
 	{Name: "record-auto", Mode: "record", Proto: "auto", Quick: true},
-	{Name: "backchannel-tcp", Mode: "play", Proto: "tcp", BackChannel: true, Quick: true},
+	{Name: "backchannel-tcp", Mode: "play", Proto: "tcp", BackChannel: true, Quick: false},
 }
 
 func flowByName(n string) *Flow {
